@@ -162,13 +162,31 @@ func runMerge(c *ctx, which string) {
 			var queries []*bs.Query
 			var answers []map[int]int
 			if which == "C11" {
-				for qi := 0; qi < 12; qi++ {
+				for qi := 0; qi < 24; qi++ {
 					q := genQuery(r, p, false)
 					q.Prefilter = genPrefilterFor(r, h)
+					if qi >= 12 && len(p.leaves) > 0 {
+						// row-directed: one token (or field:token) of one stored leaf, no prefilter - the stored row must
+						// stay findable through the rebuilt block and file filters
+						lf := pick(r, p.leaves)
+						tk := pick(r, lf.toks)
+						if qi%2 == 0 {
+							q = bs.NewQuery().Token(tk).Build()
+						} else {
+							q = bs.NewQuery().FieldToken(lf.path, tk).Build()
+						}
+					}
 					out := h.Env.Query(q)
 					queries = append(queries, q)
 					answers = append(answers, idsOf(out.Rows))
 				}
+			}
+			if which == "C12" && step == 2 && r.Chance(0.5) {
+				// the merging engine may be configured with other minmax keys than the engines that wrote the
+				// files: blocks are still grouped by the key sets they actually carry
+				h.Env.Cfg.MinMaxIndexes = pick(r, [][]string{nil, {"k2"}, {"other"}})
+				h.Env.Reopen()
+				h.Ops = append(h.Ops, fmt.Sprintf("reopen MinMaxIndexes=%v", h.Env.Cfg.MinMaxIndexes))
 			}
 			stats, err := h.Env.Eng.Merge(context.Background())
 			h.Ops = append(h.Ops, fmt.Sprintf("merge -> %v", err))
@@ -372,6 +390,7 @@ func runMerge(c *ctx, which string) {
 	if which == "C12" {
 		syntheticFileGroups(c)
 		byteLimitMerges(c)
+		keySetReconfigMerges(c)
 	}
 }
 
@@ -547,6 +566,62 @@ func byteLimitMerges(c *ctx) {
 			if ids[j] != 1 {
 				c.r.Add(Finding{Kind: "violation", Check: "rows-preserved", Detail: fmt.Sprintf("row %d stored %d times after the merge", j, ids[j]), Replay: replay})
 			}
+		}
+		env.Stop()
+	}
+}
+
+// keySetReconfigMerges: files written by an engine that indexes "ts" hold, in one partition, a block with a ts
+// range and a block without one (its rows had no ts); another partition gives the two files a mergeable pair,
+// so they are grouped. The merge is run by an engine re-opened with other MinMaxIndexes (none / another key):
+// blocks are merged only with blocks carrying the same minmax key set, whatever the merging engine indexes.
+func keySetReconfigMerges(c *ctx) {
+	r := NewRng(c.seed, 113)
+	for i := 0; i < 8*c.scale; i++ {
+		cfg := bs.DefaultBloomSearchEngineConfig()
+		cfg.PartitionFunc = partitionFunc("p")
+		cfg.MaxBufferedTime = time.Hour
+		cfg.MinMaxIndexes = []string{"ts"}
+		cfg.RowDataCompression = pick(r, []bs.CompressionType{bs.CompressionNone, bs.CompressionSnappy})
+		cfg.MaxFilesToMergePerOperation = 8
+		env := NewEnv(cfg)
+		h := &History{Env: env, Rows: map[int]*StoredRow{}}
+		// file A: pp{ts}, qq{ts};  file B: pp{} (no ts), qq{ts}
+		env.IngestWait([]map[string]any{{"_id": 1, "p": "pp", "ts": 10 + r.IntN(50)}, {"_id": 2, "p": "qq", "ts": 5}})
+		env.IngestWait([]map[string]any{{"_id": 3, "p": "pp", "note": "no ts"}, {"_id": 4, "p": "pp", "note": "no ts either"}, {"_id": 5, "p": "qq", "ts": 7}})
+		q := bs.NewQuery().MatchPrefilter(bs.MinMax("ts", bs.NumericGreaterThanEqual(0))).Build()
+		before := idsOf(env.Query(q).Rows)
+		env.Cfg.MinMaxIndexes = pick(r, [][]string{nil, nil, {"other"}})
+		env.Reopen()
+		_, merr := env.Eng.Merge(context.Background())
+		after := idsOf(env.Query(q).Rows)
+		layout, lerr := h.Layout()
+		replay := map[string]any{"merging_engine_MinMaxIndexes": env.Cfg.MinMaxIndexes, "compression": string(cfg.RowDataCompression), "merge_err": fmt.Sprint(merr)}
+		c.r.Case(true, fmt.Sprint("keyset-reconfig", i, env.Cfg.MinMaxIndexes))
+		c.r.Hit("keyset-reconfig")
+		if merr != nil || lerr != nil {
+			c.r.Add(Finding{Kind: "violation", Check: "keyset-reconfig-merge-failed", Detail: fmt.Sprintf("merge %v / layout %v", merr, lerr), Replay: replay})
+			env.Stop()
+			continue
+		}
+		for _, f := range layout {
+			for _, b := range f.Blocks {
+				has1, hasNoTs := false, false
+				for _, id := range b.RowIDs {
+					if id == 1 {
+						has1 = true
+					}
+					if id == 3 || id == 4 {
+						hasNoTs = true
+					}
+				}
+				if has1 && hasNoTs {
+					c.r.Add(Finding{Kind: "violation", Check: "group-key", Detail: fmt.Sprintf("output block of partition %q (minmax keys %s) combines a block that carried a ts range with a block that carried none", b.Meta.PartitionID, keySet(b.Meta)), Replay: replay})
+				}
+			}
+		}
+		if fmt.Sprint(before) != fmt.Sprint(after) {
+			c.r.Add(Finding{Kind: "violation", Check: "answer-changed", Detail: fmt.Sprintf("strict prefilter ts >= 0 returned ids %v before the merge and %v after", before, after), Replay: replay})
 		}
 		env.Stop()
 	}
